@@ -3,6 +3,7 @@ package main
 import (
 	"fmt"
 	"go/token"
+	"strings"
 	"go/types"
 
 	"golang.org/x/tools/go/ssa"
@@ -316,3 +317,175 @@ func init() {
 }
 
 var _ = types.Typ
+
+// boolKnownAt: the boolean value v is known to equal want at the entry of block b (dominating branch
+// on v itself or on !v).
+func boolKnownAt(v ssa.Value, want bool, b *ssa.BasicBlock) bool {
+	for _, f := range facts(b) {
+		c, taken := f.Cond, f.Taken
+		for {
+			if u, ok := c.(*ssa.UnOp); ok && u.Op == token.NOT {
+				c, taken = u.X, !taken
+				continue
+			}
+			break
+		}
+		if c == v && taken == want {
+			return true
+		}
+	}
+	return false
+}
+
+// derivesFromLoadOf: v is computed (conversions, arithmetic, comparisons, phis) from a load of addr.
+func derivesFromLoadOf(v ssa.Value, addr ssa.Value, depth int) bool {
+	if depth > 8 || v == nil {
+		return false
+	}
+	switch x := v.(type) {
+	case *ssa.UnOp:
+		if x.Op == token.MUL {
+			return x.X == addr
+		}
+		return derivesFromLoadOf(x.X, addr, depth+1)
+	case *ssa.Convert:
+		return derivesFromLoadOf(x.X, addr, depth+1)
+	case *ssa.ChangeType:
+		return derivesFromLoadOf(x.X, addr, depth+1)
+	case *ssa.BinOp:
+		return derivesFromLoadOf(x.X, addr, depth+1) || derivesFromLoadOf(x.Y, addr, depth+1)
+	case *ssa.Phi:
+		for _, e := range x.Edges {
+			if derivesFromLoadOf(e, addr, depth+1) {
+				return true
+			}
+		}
+	case *ssa.Call:
+		// math.Float32bits(*data) and friends
+		for _, a := range x.Call.Args {
+			if derivesFromLoadOf(a, addr, depth+1) {
+				return true
+			}
+		}
+	}
+	return false
+}
+
+// controlledByLoadOf: block b is entered only through a branch whose condition derives from a load of addr.
+func controlledByLoadOf(b *ssa.BasicBlock, addr ssa.Value) bool {
+	for _, f := range facts(b) {
+		if derivesFromLoadOf(f.Cond, addr, 0) {
+			return true
+		}
+	}
+	return false
+}
+
+func init() {
+	register(&Rule{ID: "C04.R7", Props: []string{"C04"}, Min: 12, Needs: NeedMain,
+		Doc: "an absent optional field leaves the target untouched: in every Reader.ReadX(data, tag, require) each store through data is either dominated by `have == true` of the tag search, or goes through a temporary handed to a narrower/wider reader that was seeded from *data before the delegation (so that `not found` writes the old value back), never from a zero temporary",
+		Run: func(r *R) {
+			sp := r.w.Pkg(codecPkg)
+			if sp == nil {
+				r.AnchorMissing("package codec")
+				return
+			}
+			for _, fn := range r.w.Funcs(sp) {
+				if fn.Signature.Recv() == nil || typeID(fn.Signature.Recv().Type()) != modPath+"/"+codecPkg+".Reader" || len(fn.Params) != 4 {
+					continue
+				}
+				data, tag, req := fn.Params[1], fn.Params[2], fn.Params[3]
+				if _, isPtr := data.Type().Underlying().(*types.Pointer); !isPtr || basicKind(tag.Type()) != types.Uint8 || basicKind(req.Type()) != types.Bool {
+					continue
+				}
+				// the tag search of a direct reader, the delegation of a wrapping reader
+				var have ssa.Value
+				var deleg *ssa.Call
+				var tmp *ssa.Alloc
+				eachInstr(fn, func(in ssa.Instruction) {
+					c, ok := in.(*ssa.Call)
+					if !ok {
+						return
+					}
+					sc := c.Call.StaticCallee()
+					if sc == nil || sc.Signature.Recv() == nil || typeID(sc.Signature.Recv().Type()) != modPath+"/"+codecPkg+".Reader" {
+						return
+					}
+					n := len(c.Call.Args)
+					if n < 3 || c.Call.Args[n-2] != ssa.Value(tag) || c.Call.Args[n-1] != ssa.Value(req) {
+						return
+					}
+					if strings.HasPrefix(sc.Name(), "SkipTo") {
+						for _, ref := range *c.Referrers() {
+							if e, ok := ref.(*ssa.Extract); ok && e.Index == 0 {
+								have = e
+							}
+						}
+						return
+					}
+					if a, ok := c.Call.Args[1].(*ssa.Alloc); ok {
+						deleg, tmp = c, a
+					}
+				})
+				var stores []*ssa.Store
+				eachInstr(fn, func(in ssa.Instruction) {
+					if st, ok := in.(*ssa.Store); ok && st.Addr == ssa.Value(data) {
+						stores = append(stores, st)
+					}
+				})
+				for i, st := range stores {
+					what := fmt.Sprintf("store #%d through data keeps an absent field's value", i+1)
+					switch {
+					case have != nil && boolKnownAt(have, true, st.Block()):
+						r.OK(fname(fn), what, st.Pos(), "dominated by have == true")
+					case deleg != nil && tmp != nil && (derivesFromLoadOf(st.Val, tmp, 0) || controlledByLoadOf(st.Block(), tmp)):
+						seeded := false
+						conditional := true
+						n := 0
+						for _, ref := range *tmp.Referrers() {
+							s2, ok := ref.(*ssa.Store)
+							if !ok || s2.Addr != ssa.Value(tmp) || !reachesInstr(s2, deleg) {
+								continue
+							}
+							n++
+							if derivesFromLoadOf(s2.Val, data, 0) && instrDominates(s2, deleg) {
+								seeded = true
+							}
+							if !controlledByLoadOf(s2.Block(), data) {
+								conditional = false
+							}
+						}
+						okSeed := seeded || (n > 0 && conditional)
+						r.Check(okSeed, fname(fn), what, st.Pos(), "the temporary handed to "+deleg.Call.StaticCallee().Name()+" is seeded from *data", "the value written back comes from a temporary that is not initialised from *data before %s fills it: when the field is absent the zero temporary overwrites the default the caller installed", deleg.Call.StaticCallee().Name())
+					default:
+						r.Bad(fname(fn), what, st.Pos(), "this store through data is neither dominated by `have == true` nor fed by a temporary seeded from *data: an absent optional field does not keep its default")
+					}
+				}
+			}
+		}})
+}
+
+// reachesInstr: instruction a can execute before b (same function): a's block reaches b's block, or same block earlier.
+func reachesInstr(a, b ssa.Instruction) bool {
+	if a.Block() == b.Block() {
+		return instrIndex(a) < instrIndex(b)
+	}
+	seen := map[*ssa.BasicBlock]bool{}
+	var walk func(x *ssa.BasicBlock) bool
+	walk = func(x *ssa.BasicBlock) bool {
+		if x == b.Block() {
+			return true
+		}
+		if seen[x] {
+			return false
+		}
+		seen[x] = true
+		for _, s := range x.Succs {
+			if walk(s) {
+				return true
+			}
+		}
+		return false
+	}
+	return walk(a.Block())
+}
